@@ -5,6 +5,7 @@ go 1.20
 require (
 	github.com/scrapli/scrapligo v0.0.0
 	golang.org/x/crypto v0.26.0
+	gopkg.in/yaml.v3 v3.0.1
 )
 
 require (
